@@ -200,7 +200,10 @@ def extract(profile='dev', use_cache=True, repo='/repo'):
     cache_dir = os.path.join(VERIF, '.cache', 'facts', key)
     if use_cache and os.path.isdir(cache_dir) and all(
             os.path.exists(os.path.join(cache_dir, c + '.json')) for c in CRATES):
-        return Facts(cache_dir), key, time.time() - t0, True
+        try:
+            return Facts(cache_dir), key, time.time() - t0, True
+        except (FactsError, ValueError, OSError):
+            pass   # incomplete / concurrently replaced entry: extract again
     tmp = tempfile.mkdtemp(prefix='facts-', dir=os.path.join(VERIF, '.cache') if os.path.isdir(os.path.join(VERIF, '.cache')) else None)
     try:
         r = subprocess.run([os.path.join(VERIF, 'bin', 'extract_facts.sh'), tmp, profile, repo],
@@ -208,15 +211,25 @@ def extract(profile='dev', use_cache=True, repo='/repo'):
         if r.returncode != 0:
             raise FactsError('fact extraction failed (exit %d):\n%s' % (r.returncode, r.stdout[-4000:]))
         os.makedirs(os.path.dirname(cache_dir), exist_ok=True)
-        if os.path.isdir(cache_dir):
-            shutil.rmtree(cache_dir)
-        shutil.move(tmp, cache_dir)
+        try:
+            os.rename(tmp, cache_dir)          # atomic; loses the race gracefully if a concurrent check got there first
+        except OSError:
+            if not all(os.path.exists(os.path.join(cache_dir, c + '.json')) for c in CRATES):
+                shutil.rmtree(cache_dir, ignore_errors=True)
+                os.rename(tmp, cache_dir)
     finally:
         if os.path.isdir(tmp):
             shutil.rmtree(tmp, ignore_errors=True)
-    # keep the cache small: drop all but the 6 newest entries
+    facts = Facts(cache_dir)
+    # keep the cache small, but never remove entries another check may be loading right now: only entries that are
+    # both old (> 2 h) and beyond the 40 newest are dropped
     base = os.path.dirname(cache_dir)
-    ents = sorted((os.path.getmtime(os.path.join(base, e)), e) for e in os.listdir(base))
-    for _, e in ents[:-6]:
-        shutil.rmtree(os.path.join(base, e), ignore_errors=True)
-    return Facts(cache_dir), key, time.time() - t0, False
+    try:
+        ents = sorted((os.path.getmtime(os.path.join(base, e)), e) for e in os.listdir(base))
+        now = time.time()
+        for mt, e in ents[:-40]:
+            if now - mt > 7200:
+                shutil.rmtree(os.path.join(base, e), ignore_errors=True)
+    except OSError:
+        pass
+    return facts, key, time.time() - t0, False
